@@ -288,6 +288,13 @@ func (c *CheckCtx) run() int {
 	for _, f := range fns {
 		runs = append(runs, &HarnessRun{Name: f.Pkg.Pkg.Name() + "." + f.Name(), Fn: f, MaxPaths: c.P.MaxPaths, MaxSymBranches: c.P.MaxSymBranches})
 	}
+	dl := int64(1500)
+	if c.Tier == "thorough" {
+		dl = 4 * 3600
+	}
+	dl = envInt("VERIF_DEADLINE_S", dl)
+	runDeadline = time.Now().Add(time.Duration(dl) * time.Second)
+	c.Extra["exploration_deadline_s"] = dl
 	c.Results = RunAll(c.Eng, runs, c.Workers, timeout)
 
 	// judge
@@ -310,7 +317,9 @@ func (c *CheckCtx) run() int {
 				c.Problems = append(c.Problems, fmt.Sprintf("%s: %s: %s @ %s", r.Name, p.End, p.Msg, p.Site))
 			}
 		}
-		if r.PathsTruncated {
+		if r.DeadlineHit {
+			c.Problems = append(c.Problems, r.Name+": exploration deadline reached before all paths were explored")
+		} else if r.PathsTruncated {
 			c.Problems = append(c.Problems, r.Name+": path limit reached")
 		}
 		if r.Unknowns > 0 || r.AssertsUnknown > 0 {
